@@ -39,6 +39,29 @@ theorem read_ofBytes (b : Bytes) (n : Nat) :
   · have : n ≤ b.length := by omega
     simp [h, this]
 
+/-- `read(n)` on a stream that has already consumed the first `k` bytes of `b` -/
+theorem read_mk_drop (b : Bytes) (k n : Nat) :
+    (⟨b.drop k, b.length - k⟩ : Cursor).read n =
+      if b.length - k < n then .throw .malformedPacket
+      else .ok ((b.drop k).take n, ⟨b.drop (k + n), b.length - (k + n)⟩) := by
+  unfold Cursor.read Cursor.canRead
+  by_cases h : b.length - k < n
+  · have : ¬ n ≤ b.length - k := by omega
+    simp [h, this]
+  · have h1 : n ≤ b.length - k := by omega
+    have h2 : ¬ (b.drop k).length < n := by simp only [List.length_drop]; omega
+    simp only [h1, decide_true, Bool.not_true, h2, h, if_false, Bool.false_eq_true, List.drop_drop]
+    congr 3
+    omega
+
+theorem readBE_mk_drop (b : Bytes) (k n : Nat) :
+    (⟨b.drop k, b.length - k⟩ : Cursor).readBE n =
+      if b.length - k < n then .throw .malformedPacket
+      else .ok (Cursor.beNat ((b.drop k).take n), ⟨b.drop (k + n), b.length - (k + n)⟩) := by
+  unfold Cursor.readBE
+  rw [read_mk_drop]
+  by_cases h : b.length - k < n <;> simp [h, bind, Out.bind]
+
 theorem readLE_ofBytes (b : Bytes) (n : Nat) :
     (Cursor.ofBytes b).readLE n =
       if b.length < n then .throw .malformedPacket else .ok (Cursor.leNat (b.take n), ⟨b.drop n, b.length - n⟩) := by
@@ -68,6 +91,21 @@ theorem peek_first (site : String) (m : Bytes) (k : Nat) (h : 0 < m.length) :
 
 theorem byteAt_take_one (m : Bytes) : byteAt (m.take 1) 0 = byteAt m 0 := by
   cases m <;> rfl
+
+theorem byteAt_take (b : Bytes) (n i : Nat) (h : i < n) : byteAt (b.take n) i = byteAt b i := by
+  simp [byteAt, List.getD_eq_getElem?_getD, h]
+
+theorem byteAt_drop (b : Bytes) (k i : Nat) : byteAt (b.drop k) i = byteAt b (k + i) := by
+  simp [byteAt, List.getD_eq_getElem?_getD, List.getElem?_drop]
+
+/-- a stream write that fits: the closed form of the new stream state -/
+theorem owrite_ok (o : OutCursor) (bs : Bytes) (hi : o.Inv) (hs : bs.length ≤ o.size) :
+    o.write bs = .ok ⟨o.done ++ bs, o.rest.drop bs.length, o.size - bs.length⟩ ∧
+      (⟨o.done ++ bs, o.rest.drop bs.length, o.size - bs.length⟩ : OutCursor).Inv := by
+  have h1 : ¬ o.size < bs.length := by omega
+  have h2 : ¬ o.rest.length < bs.length := by simp only [OutCursor.Inv] at hi; omega
+  refine ⟨by simp [OutCursor.write, h1, h2], ?_⟩
+  simp only [OutCursor.Inv, List.length_drop] at *; omega
 
 theorem byteAt_lt (bs : Bytes) (i : Nat) : byteAt bs i < 256 := by
   unfold byteAt; exact UInt8.toNat_lt _
@@ -148,6 +186,29 @@ theorem writeAtStart_ok (region hb : Bytes) (n : Nat) (hl : hb.length = n) (hr :
       (hb ++ region.drop n).take n = hb ∧ (hb ++ region.drop n).drop n = region.drop n := by
   subst hl
   refine ⟨writeAtStart_eq region hb hr, length_prefix_replaced _ _ hr, List.take_left' rfl, List.drop_left' rfl⟩
+
+theorem ctx_innerSize_of_isEmpty (cx : Ctx) (h : cx.inners.isEmpty = true) : cx.innerSize = 0 := by
+  cases hi : cx.inners with
+  | nil => simp [Ctx.innerSize, hi]
+  | cons a as => simp [hi] at h
+
+/-- `stream.write(header); stream.skip(k); stream.fill(t, 0)` on a region of exactly header + k + t bytes -/
+theorem write_skip_fill (region hb : Bytes) (k t : Nat) (hl : region.length = hb.length + k + t) :
+    ((OutCursor.ofRegion region).write hb >>= fun o => o.skip k >>= fun o => o.fill t 0 >>= fun o => pure o.buffer) =
+      .ok (hb ++ (region.drop hb.length).take k ++ List.replicate t 0) := by
+  have h1 : ¬ region.length < hb.length := by omega
+  have h2 : ¬ k > region.length - hb.length := by omega
+  have h3 : ¬ region.length - hb.length - k < t := by omega
+  have h4 : ¬ region.length - (hb.length + k) < t := by omega
+  have h5 : List.drop (hb.length + k + t) region = [] := List.drop_eq_nil_of_le (by omega)
+  simp [OutCursor.ofRegion, OutCursor.write, OutCursor.skip, OutCursor.fill, OutCursor.buffer, h1, h2, h3, h4, h5,
+    bind, Out.bind, pure]
+
+/-- `stream.write(header)` alone: the rest of the region is untouched -/
+theorem write_only (region hb : Bytes) (hl : hb.length ≤ region.length) :
+    ((OutCursor.ofRegion region).write hb >>= fun o => (pure o.buffer : Out Bytes)) = .ok (hb ++ region.drop hb.length) := by
+  have h1 : ¬ region.length < hb.length := by omega
+  simp [OutCursor.ofRegion, OutCursor.write, OutCursor.buffer, h1, bind, Out.bind, pure]
 
 /-! ### chains whose layers are only asked to behave on regions of the exact size -/
 
